@@ -2,9 +2,9 @@
 no unvisited slot, the interact pipeline, nothing else reported, instrument-name = delivery-name."""
 import ast
 
-from ..astq import Facts, expand, facts_of, is_name, is_self_attr, returns_of
+from ..astq import Facts, expand, facts_of, is_name, is_self_attr, returns_of, returns_with_conds
 from ..cfg import CFG
-from ..core import AnalysisError, norm, walk_local
+from ..core import AnalysisError, norm, order, walk_local
 from .. import pybinding
 from ..evc import Collector
 from ..xform import query as Q
@@ -354,6 +354,29 @@ def run(repo, chk):
            "for attribute/subscript stores the rewriter decides instrumentation on the base name (`self`) while interact looks handlers up under the affixed name "
            "(`self.x`): under selective probing `K.m > self.x` is never instrumented and never fires" if mismatches and affix else
            f"keyed interactions ({n_keyed}) are decided and delivered under the same name")
+    # a store into an item or attribute of v is never reported as a binding of v: every keyed interaction is looked up under the affixed name
+    from ..astq import str_parts
+    ia = repo.func("interpret.Interactor.interact")
+    fia = facts_of(ia)
+    vn, kp = ia.node.args.args[1].arg, ia.node.args.args[2].arg
+    ren = [(set(c), n) for t, c, n in fia.items if isinstance(n, ast.Assign) and len(n.targets) == 1 and is_name(n.targets[0], vn)]
+    wk = [n for t, c, n in fia.items if isinstance(n, ast.Call) and norm(n.func) == "self.work_on"]
+    ok = len(ren) == 1 and ren[0][0] == {f"{kp} is not None"} and norm(ren[0][1].value) == f"{kp}.affix_to({vn})" \
+        and len(wk) == 1 and wk[0].args and is_name(wk[0].args[0], vn) and order(wk[0]) > order(ren[0][1])
+    chk.ob("R02.5", "interpret.Interactor.interact:keyed-interactions-are-looked-up-under-the-affixed-name", ok, ia.where,
+           f"whenever a key is given (attribute or item store), the handlers are looked up under `{kp}.affix_to({vn})`, never under the plain name: "
+           f"`v[i] = x` is not a binding of `v` (renaming: {[(sorted(c), norm(n)) for c, n in ren]})")
+    af = repo.func("transform.Key.affix_to")
+    rets = returns_with_conds(af.node)
+    sym = af.node.args.args[1].arg
+    shapes = {}
+    for cs, v, _ in rets:
+        parts = str_parts(v) if v is not None else None
+        shapes[" and ".join(sorted(cs))] = parts
+    ok = bool(rets) and all(parts is not None and parts[0] == "{" + sym + "}" and len(parts) >= 3 and any(q_.startswith("{self.value") or q_.startswith("{repr(self.value") for q_ in parts[1:])
+                            for parts in shapes.values()) and {"self.type == 'attr'", "self.type == 'index'"} <= {c for k in shapes for c in k.split(" and ")}
+    chk.ob("R02.5", "transform.Key.affix_to:every-key-kind-extends-the-name", ok, af.where,
+           f"for both key kinds the delivered name is the variable's name followed by the key, so it can never equal a plain variable name: {shapes}")
     si = repo.func(f"transform.{cls}.should_instrument")
     chk.ob("R02.6", "should_instrument:same-predicate-as-delivery", facts_of(si).mentions("check_element(el, varname, evaluated_ann)") and
            facts_of(repo.func("interpret.WorkingFrame.__init__")).mentions("check_element(element, varname, category)"), si.where,
